@@ -493,6 +493,9 @@ func Build(f File) ([]byte, Layout, error) {
 	for i := range f.Items {
 		if f.Items[i].Kind == KindKd {
 			abi = 3
+			if f.ABIVersion != 0 {
+				abi = byte(f.ABIVersion)
+			}
 		}
 	}
 	out[8] = abi
